@@ -11,6 +11,7 @@ import (
 	"math"
 	"math/rand"
 	"sort"
+	"strings"
 
 	"0chain.net/chaincore/block"
 	"0chain.net/chaincore/chain"
@@ -464,7 +465,15 @@ func (d *drv) mint(s step) {
 		}
 		switch k[0] {
 		case 'v':
-			sigs = append(sigs, sigOut{signer.ID, signer.Sign(msg)})
+			sg := signer.Sign(msg)
+			switch d.r.Intn(6) {
+			case 0: // the same valid signature in another textual form (hex digits in upper case)
+				sg = strings.ToUpper(sg)
+			case 1: // ... and the authorizer listed twice, once in each form: still ONE authorizer
+				sigs = append(sigs, sigOut{signer.ID, strings.ToUpper(sg)})
+				logged = append(logged, pair{signer.Name, 1})
+			}
+			sigs = append(sigs, sigOut{signer.ID, sg})
 			logged = append(logged, pair{signer.Name, 1})
 		case 'u':
 			sigs = append(sigs, sigOut{d.stranger.ID, d.stranger.Sign(msg)})
